@@ -161,7 +161,7 @@ from TotalDepth.RP66V1.core import LogicalFile
 
 def _split(tokens, vr_each):
     """tokens: list of 'F' (FILE-HEADER + ORIGIN), 'G' (FILE-HEADER, encrypted record, ORIGIN), 'P' (PARAMETER EFLR), 'X' (encrypted record),
-    'O' (a further ORIGIN record in the same logical file), 'W' (a WELL-REFERENCE record)."""
+    'O' (a further ORIGIN record in the same logical file), 'W' (a WELL-REFERENCE record), 'Y' (an encrypted INDIRECTLY formatted record)."""
     recs = []
     model = []            # per logical file: list of expected set types
     idx_of = []           # record index (in recs) of every expected EFLR, per logical file
@@ -189,6 +189,8 @@ def _split(tokens, vr_each):
             idx_of[-1].append(len(recs))
             recs.append(F.record(True, 5, F.parameter(k), new_vr=vr_each))
             k += 1
+        elif t == 'Y':
+            recs.append(F.record(False, 0, b'\x9c' * (21 + k), encrypted=True, new_vr=vr_each))
         else:
             recs.append(F.record(True, 5, b'\x9c' * (20 + k), encrypted=True, new_vr=vr_each))
     data, layout = F.build(recs)
@@ -207,13 +209,13 @@ def _split(tokens, vr_each):
 def logical_file_split(n: int, t1: int, t2: int, t3: int, t4: int, g0: bool, vr_each: bool) -> bool:
     """
     pre: 0 <= n <= 4
-    pre: 0 <= t1 <= 5 and 0 <= t2 <= 5 and 0 <= t3 <= 5 and 0 <= t4 <= 5
+    pre: 0 <= t1 <= 6 and 0 <= t2 <= 6 and 0 <= t3 <= 6 and 0 <= t4 <= 6
     pre: PART < 0 or (2 if g0 else 0) + (1 if vr_each else 0) + 4 * t1 == PART
     post: _
     """
-    n, t1, t2, t3, t4 = mark.pick(n, 0, 4), mark.pick(t1, 0, 5), mark.pick(t2, 0, 5), mark.pick(t3, 0, 5), mark.pick(t4, 0, 5)
+    n, t1, t2, t3, t4 = mark.pick(n, 0, 4), mark.pick(t1, 0, 6), mark.pick(t2, 0, 6), mark.pick(t3, 0, 6), mark.pick(t4, 0, 6)
     g0, vr_each = mark.pickb(g0), mark.pickb(vr_each)
-    names = 'FGPXOW'
+    names = 'FGPXOWY'
     tokens = ['G' if g0 else 'F'] + [names[t] for t in (t1, t2, t3, t4)][:n]
     with mark.untraced():
         return _split(tokens, vr_each)
